@@ -505,4 +505,81 @@ def _replay_single_request(method, malformed):
         return n != 1, {'method': m, 'malformed_params': malformed, 'responses': n}
     return rp
 
-KERNELS = [k1, k2, k2b, k3, k4, k5]
+# ---------------------------------------------------------------------------------------------- K6 start-up: any initialize parameters lead into the message loop, never to a panic
+@kernel('K6 lsp.startup_with_any_initialize_params')
+def k6(ctx, kr):
+    P = ctx.program(CR)
+    key = P.find_fn('ironplcc', 'lsp::start_with_connection')
+    st = {}
+    def folder(i): return LSP.mkstruct(P, 'WorkspaceFolder', **{'uri': Agg('Url', [Str('file:///ws%d' % i)]), 'name': Str('ws%d' % i)})
+    def st_from_value(M, fr, c, a):
+        nf = st['nfolders']
+        wf = none() if nf < 0 else some(VecV([folder(i) for i in range(nf)]))
+        ru = some(Agg('Url', [Str('file:///root')])) if st['root'] else none()
+        fields = [f for f, _ in P.structs.get('InitializeParams', [])]
+        kw = {'workspace_folders': wf}
+        if 'root_uri' in fields: kw['root_uri'] = ru
+        return ok(LSP.mkstruct(P, 'InitializeParams', **kw))
+    def st_init(M, fr, c, a):
+        f = a[1]
+        while isinstance(f, Ref): f = M.deref(f)
+        u = f.f[0]
+        while isinstance(u, Ref): u = M.deref(u)
+        st['initialized'].append(M.deref(u.f[0]).conc() if isinstance(u, Agg) else '?'); return UNIT
+    def st_run(M, fr, c, a):
+        st['ran'] += 1
+        return ok(LSP.mkstruct(P, 'Request', id=Agg('RequestId', [1]), method=Str('shutdown'), params=Opaque('json')))
+    stubs = {r'^serde_json::to_value': lambda M, fr, c, a: ok(Opaque('json')), r'^serde_json::from_value': st_from_value,
+             r'server_capabilities$': lambda M, fr, c, a: Opaque('capabilities'), r'^lsp_server::Connection::initialize$': lambda M, fr, c, a: ok(Opaque('json')),
+             r'^lsp_project::LspProject::initialize$': st_init, r'^lsp::LspServer::<.*>::run$|^lsp::LspServer::run$': st_run,
+             r'^lsp_server::Connection::handle_shutdown$': lambda M, fr, c, a: ok(True),
+             r'^<lsp_types::Url as std::string::ToString>::to_string$|^<lsp_types::Url as std::fmt::Display>::fmt$': lambda M, fr, c, a: Str('url'),
+             r'^<lsp_types::(Url|WorkspaceFolder) as std::clone::Clone>::clone$': lambda M, fr, c, a: deep_clone(M.deref(a[0]))}
+    M = Machine(P, stubs=stubs)
+    def entry(M):
+        v = M.fresh_bv('workspace_folders', 8); M.declare_domain(v, [0, 1, 2, 3])      # 0: null, 1: [], 2: one folder, 3: two folders
+        k = 0 if M.branch(v == 0) else (1 if M.branch(v == 1) else (2 if M.branch(v == 2) else 3))
+        st['nfolders'] = k - 1; st['root'] = M.branch(M.fresh_bool('root_uri_present')); st['initialized'] = []; st['ran'] = 0
+        conn = LSP.mkstruct(P, 'Connection', sender=Opaque('sender'), receiver=Opaque('receiver'))
+        proj = Agg('LspProject', [Opaque('wrapped project')])
+        return M.call_fn(key, [conn, proj])
+    def on_path(M, pr):
+        kr.paths += 1
+        if pr.inconclusive: kr.inconc(pr.inconclusive); return
+        kr.nontrivial += 1
+        nf = st['nfolders']; desc = 'null' if nf < 0 else '%d folder(s)' % nf
+        wit = {'workspaceFolders': desc, 'rootUri': st['root']}
+        rep = ('lsp_startup', (nf, st['root']))
+        if pr.panic: _add(kr, 'C12/K6/panic/workspace-folders-%s' % ('null' if nf < 0 else nf), 'the server panics during start-up when initialize carries workspaceFolders = %s (rootUri %s): %s' % (desc, 'present' if st['root'] else 'absent', pr.panic.msg[:60]), wit, rep); return
+        if st['ran'] != 1: _add(kr, 'C12/K6/no-message-loop/%s' % desc, 'start-up with workspaceFolders = %s never enters the message loop' % desc, wit, rep)
+        if nf >= 1 and st['initialized'][:1] != ['file:///ws0']: _add(kr, 'C12/K6/workspace-not-loaded/%s' % desc, 'workspaceFolders = %s: the project is initialised from %s instead of the first folder' % (desc, st['initialized']), wit, None)
+        elif len(kr.validate) < 2 and nf in (0, 2): kr.validate.append(rep)
+        if len(kr.samples) < 3: kr.samples.append({'initialize': wit, 'project_initialised_from': list(st['initialized'])})
+    M.explore(entry, on_path)
+    kr.queries += M.stats['smt']
+    kr.functions = fn_paths(P, M.encoded); kr.models = sorted(M.models_used)
+    kr.stubs = ['Connection::initialize / serde_json by contract: initialize params with workspaceFolders null, [], one or two folders and rootUri present or absent; LspProject::initialize recorded; LspServer::run returns a shutdown request (K2/K3 cover it); Connection::handle_shutdown Ok']
+    kr.bounds = 'lsp::start_with_connection for initialize params with workspaceFolders in {null, [], [f], [f, g]} and rootUri present or absent: no panic, the message loop is entered once, the project is initialised from the first folder when there is one'
+    kr.exhaustive = True
+
+@replay_factory('lsp_startup')
+def _replay_startup(nfolders, root):
+    def rp(ctx):
+        import lspclient, tempfile
+        d = tempfile.mkdtemp(dir=ctx.tmp)
+        s = lspclient.LspSession(ctx.ironplcc_path())
+        try:
+            folders = None if nfolders < 0 else [{'uri': 'file://' + d, 'name': 'ws%d' % i} for i in range(nfolders)]
+            rid = s.request('initialize', {'processId': None, 'rootUri': ('file://' + d) if root else None, 'capabilities': {}, 'workspaceFolders': folders})
+            r = s.wait_for(lambda m: m.get('id') == rid, timeout=5); s.notify('initialized', {})
+            uri = 'file://' + d + '/a.st'
+            s.did_open(uri, 'PROGRAM p\nEND_PROGRAM\n', 1); m = s.diagnostics_for(uri, timeout=5)
+            rid2 = s.request('textDocument/semanticTokens/full', {'textDocument': {'uri': uri}})
+            r2 = s.wait_for(lambda x: x.get('id') == rid2, timeout=3)
+            alive = s.p.poll() is None
+        finally:
+            s.close()
+        return (r is None) or (m is None) or (r2 is None) or not alive, {'workspaceFolders': nfolders, 'initialize_answered': r is not None, 'diagnostics_published': m is not None, 'request_answered': r2 is not None, 'alive': alive}
+    return rp
+
+KERNELS = [k1, k2, k2b, k3, k4, k5, k6]
